@@ -5,9 +5,12 @@ import (
 	"errors"
 	"fmt"
 	"io"
+	"runtime"
 	"runtime/debug"
+	"runtime/metrics"
 	"sort"
 	"strings"
+	"sync"
 	"sync/atomic"
 
 	"seehuhn.de/go/postscript/cid"
@@ -56,7 +59,9 @@ type walkStats struct {
 	Stage        int
 	Opened       bool
 	OpenErr      string
-	OpenRead     int64 // bytes pdf.NewReader read from the source
+	OpenRead     int64  // bytes pdf.NewReader read from the source
+	Steps        int    // calls into the library
+	Alloc        uint64 // bytes allocated by the process during the walk
 	Refs         int
 	RefsCapped   bool
 	Fetched      int // Get returned a non-nil object
@@ -130,6 +135,7 @@ func (w *walker) step(name string, f func()) (ok bool) {
 	if w.viol != nil {
 		return false
 	}
+	w.st.Steps++
 	defer func() {
 		if r := recover(); r != nil {
 			w.viol = fmt.Errorf("panic in %s: %v\n%s", name, r, trimStack(debug.Stack()))
@@ -138,6 +144,32 @@ func (w *walker) step(name string, f func()) (ok bool) {
 	}()
 	f()
 	return w.viol == nil
+}
+
+var allocSample = []metrics.Sample{{Name: "/gc/heap/allocs:bytes"}}
+var allocMu sync.Mutex
+
+// totalAlloc is the cumulative number of bytes allocated by the process.
+func totalAlloc() uint64 {
+	allocMu.Lock()
+	defer allocMu.Unlock()
+	metrics.Read(allocSample)
+	if allocSample[0].Value.Kind() != metrics.KindUint64 {
+		var ms runtime.MemStats
+		runtime.ReadMemStats(&ms)
+		return ms.TotalAlloc
+	}
+	return allocSample[0].Value.Uint64()
+}
+
+// allocBound is the cumulative allocation a walk may cause: every call into
+// the library (steps) may decode a stream and is granted twice the documented
+// working-memory budget of a stream as long as the whole file
+// (limits.StreamBudget), every byte read from a decoded stream 16 bytes, plus
+// 1 GiB and 1024 bytes per byte of input.  A trip wire for order-of-magnitude
+// escapes (an allocation sized by a number in the file instead of by its data).
+func allocBound(size int, steps int, drained int64) uint64 {
+	return 1<<30 + uint64(steps)*2*uint64(limits.StreamBudget(int64(size))) + 16*uint64(drained) + 1024*uint64(size)
 }
 
 func trimStack(b []byte) string {
@@ -158,7 +190,9 @@ func trimStack(b []byte) string {
 // returned by the library are expected and only counted.
 func Walk(data []byte, mode pdf.ReaderErrorHandling, pw string) (*walkStats, error) {
 	w := &walker{data: data, mode: mode, pw: pw, st: &walkStats{}, buf: make([]byte, 64<<10)}
+	a0 := totalAlloc()
 	w.run()
+	w.st.Alloc = totalAlloc() - a0
 	return w.st, w.viol
 }
 
